@@ -29,7 +29,9 @@ func (u *UseCase) UpdateTx(ctx context.Context, oldTxId, newTxId string, filter 
 		u.txStore.Put(newTxId, newTx)
 	}
 
-	newTx.RLock()
+	// the conflict check and the publication are one critical section of the new store:
+	// otherwise two transactions that wrote the same key can both pass the check
+	newTx.Lock()
 	var (
 		files     = make([]model.File, 0, tx.Len())
 		freeNodes = make([]*core.Node[model.File], 0, tx.Len())
@@ -64,17 +66,17 @@ func (u *UseCase) UpdateTx(ctx context.Context, oldTxId, newTxId string, filter 
 			freeNodes = append(freeNodes, n)
 		}
 	}
-	newTx.RUnlock()
 	verifhook.At("commit.afterCheck")
 	if err != nil {
+		newTx.Unlock()
 		return
 	}
 
 	if len(files) == 0 {
+		newTx.Unlock()
 		return
 	}
 
-	newTx.Lock()
 	u.allStore.Lock()
 	defer func() {
 		u.allStore.Unlock()
